@@ -54,6 +54,8 @@ def score_list(rng, n, style):
     if style == "distinct":
         vals = rng.sample(range(-40, 40), n)
         return [Fraction(v, 4) for v in vals]
+    if style == "wide-int":     # integers spread over the whole int8 range (adjacent gaps may exceed 127)
+        return [Fraction(rng.choice([rng.randint(-128, -90), rng.randint(-20, 20), rng.randint(90, 127)])) for _ in range(n)]
     raise ValueError(style)
 
 
@@ -72,3 +74,18 @@ def nextafter(x, up):
     import numpy as np
 
     return Fraction(float(np.nextafter(float(x), math.inf if up else -math.inf)))
+
+
+def pick_dtype(rng, values):
+    """numpy dtype name for a score array holding exactly `values` (all representable in it)"""
+    vals = [Fraction(v) for v in values]
+    r = rng.random()
+    ints = all(v.denominator == 1 for v in vals)
+    if ints and all(-128 <= v <= 127 for v in vals) and r < 0.10:
+        return "int8"
+    if ints and r < 0.18:
+        return "int64"
+    small = all(v.denominator <= 1024 and abs(v) < 1024 and (v.denominator & (v.denominator - 1)) == 0 for v in vals)
+    if small and r < 0.38:
+        return "float32"
+    return "float64"
